@@ -32,6 +32,9 @@ def run(model, rep, tier):
     # "--list-tests lists ... in precisely the order a run executes" with --shuffle-seed N: both
     # invocations must use the seed N itself (shared with C11.R8)
     c11.r8_given_seed_is_used(ctx, rep, 'C03.R12')
+    from . import lifetime
+    rep.rule('C03.R13', "each run sees only its own inputs (rules/lifetime.py): no function of the package is memoised across runs (functools.lru_cache / cache), module-level containers that functions add to are emptied at the start of a run, no mutable class attribute is shared through instances (mutated in place or handed out without being re-bound per instance), and no option with a mutable argparse default is mutated in place after parsing -- a second run in the same process (other layer objects under the same names, other outcomes, other filters) must not inherit the first run's state")
+    lifetime.check(ctx, rep, 'C03.R13')
     rep.units['cfg'] = ctx.cfg_stats
 
 
@@ -660,6 +663,22 @@ def r10_positional_filters(ctx, rep, R='C03.R10'):
                         elif not given and src_ == 'legacy_module_filter' and lmf == '.' and ran and \
                                 not undecided:
                             pass        # adding "." selects everything: harmless
+        # the "select everything" default (options.<list> = options.<list> or ['.']) is applied after
+        # the positional filter was merged in: a pattern added to a list that already holds '.'
+        # restricts nothing ('.' matches every name), so everything the filter excludes is selected
+        dflt = [nd for nd in g.nodes if nd.kind == 'stmt' and isinstance(nd.ast, ast.Assign) and
+                any(norm(t) == T for t in nd.ast.targets) and isinstance(nd.ast.value, ast.BoolOp) and
+                isinstance(nd.ast.value.op, ast.Or) and any(
+                    isinstance(v, (ast.List, ast.Tuple)) and any(
+                        isinstance(e_, ast.Constant) and e_.value == '.' for e_ in v.elts)
+                    for v in nd.ast.value.values)]
+        late = [x for d_ in dflt for x in sites if x.id in g.reach([d_.id], edge_ok=lambda s_, d2, k_: k_ != 'exc')]
+        rep.check(not late, R, 'the match-everything default of %s is applied after the positional filter was merged' % T,
+                  'the positional %s is added to %s after the default [\'.\'] was stored there (L%s): the '
+                  'list then contains ".", which matches every name, and the filter excludes nothing -- '
+                  'modules / tests the command line excluded are imported and run' % (
+                      src_, T, late[0].lineno if late else '?'), key='default-before-merge:' + src_,
+                  func=fo.qualname, where=ctx.where(fo, late[0].ast if late else fo.node))
         if undecided:
             rep.assume('%s: some branch condition on the way to an adding site of %s is outside the '
                        'finite domain; those cases are counted as "added"' % (R, src_))
